@@ -215,6 +215,9 @@ def stage_D(d: str, s: dict, crash=None) -> dict:
     notes = {}
     sigma = effective_sigma(s, my_matrix)
     for i, seed in enumerate(s["seeds"]):
+        if crash is not None and i == crash.get("at", 0):
+            raise Crash("D crashed between two decompositions")
+
         def seeded_eigs(A, *a, _seed=seed, **kw):
             if "rng" not in kw and kw.get("v0") is None:
                 kw["rng"] = np.random.default_rng(_seed)
@@ -232,8 +235,6 @@ def stage_D(d: str, s: dict, crash=None) -> dict:
                 raise
         finally:
             tr.eigs = real_eigs
-        if crash is not None and i == crash.get("at", 0):
-            raise Crash("D crashed between two decompositions")
         np.save(os.path.join(d, f"eigenvalues_{i}.npy"), np.array(ev))
         np.save(os.path.join(d, f"eigenvectors_{i}.npy"), np.array(evec))
     return {"notes": notes}
@@ -548,6 +549,10 @@ class PipelineCheck(Check):
                 stage = op["stage"]
                 if not all(complete[x] for x in deps[stage]):
                     probes["stage_skipped_inputs_incomplete"] = probes.get("stage_skipped_inputs_incomplete", 0) + 1
+                    continue
+                if complete[stage]:
+                    # the workflow engine does not re-run a stage whose outputs are complete
+                    probes["stage_skipped_already_complete"] = probes.get("stage_skipped_already_complete", 0) + 1
                     continue
                 args = {"d": d}
                 crashing = False
